@@ -4,7 +4,7 @@
 (a check that was strengthened after a miss is re-run)."""
 import json, os, re, sys, glob
 V = os.path.dirname(os.path.dirname(os.path.abspath(__file__)))
-logs = sys.argv[1:] or [os.path.join(V, '.run/logs', n) for n in ('mut_results.txt', 'mut_results2.txt', 'mut_results3.txt', 'mut_results4.txt', 'mut_regress.txt', 'mut_results5.txt')]
+logs = sys.argv[1:] or [os.path.join(V, '.run/logs', n) for n in ('mut_results.txt', 'mut_results2.txt', 'mut_results3.txt', 'mut_results4.txt', 'mut_regress.txt', 'mut_results5.txt', 'mut_regress2.txt')]
 res, hist = {}, {}
 lines = []
 for log in logs:
